@@ -214,7 +214,7 @@ def walk1 (P : Prims) : Desc → St → CM St
                   match P.factorValue s1 >>= factorCount with
                   | .error e => .error e
                   | .ok n => iterN n (walkList P ms) s1
-              | _ => .error .other             -- factor not in Table B: AttributeError
+              | _ => .error .unknownDescr      -- factor not in Table B: UnknownDescriptor
             | .op id => operatorDescriptor P id s
             | .seq _ ms => walkList P ms s
             | .undefElem _ => .error .unknownDescr
